@@ -13,7 +13,7 @@ from typing import Callable, Dict, List, Optional, Tuple
 from ..cfg import CFG
 from ..core import (AnalysisError, FuncInfo, FUNC_TYPES, _block_of, ancestors, ap, atoms, call_attr, calls, enclosing_stmt,
                     facts, find_calls, is_none_test, norm, parent, paths_in, stores, walk)
-from .common import (callers_of, guarded_catch_all, inline_self_calls, must_pass, normal_path, origin, single_def,
+from .common import (callers_of, cfg_node_expr, cfg_node_fallible, collaborator_class, guarded_catch_all, inline_self_calls, must_pass, normal_path, origin, single_def,
                      where_of, writers_of)
 
 OM = "hippolyzer/lib/client/object_manager.py"
@@ -64,7 +64,7 @@ class Fn:
 
     def __init__(self, ctx, qual, module=None):
         self.fi: FuncInfo = ctx.repo.fn(qual, module)
-        self.tree = inline_self_calls(ctx.repo, self.fi, depth=2, keep=PRIMS)
+        self.tree = inline_self_calls(ctx.repo, self.fi, depth=2, keep=PRIMS, collaborators=True)
         self.cfg = CFG(self.tree)
         self.params = [a.arg for a in self.tree.args.posonlyargs + self.tree.args.args]
 
@@ -146,6 +146,61 @@ def body_must_pass(fn: Fn, loop, pnodes) -> Optional[list]:
     return normal_path(fn.cfg, firsts, lambda n: n in hset or n in after, lambda n: n in pset, include_start=True)
 
 
+# --------------------------------------------------------------------------- where the request futures live
+
+_TAB = {"names": {"_object_futures"}, "field": "_object_futures", "via": None, "holder": None}
+
+
+def _last_attr(path: Optional[str]) -> str:
+    p = path or ""
+    for suf in (".items()", ".keys()", ".values()"):
+        if p.endswith(suf):
+            p = p[:-len(suf)]
+    return p.split(".")[-1].replace("[]", "").replace("()", "") if "." in p else ""
+
+
+def is_tab(path: Optional[str]) -> bool:
+    """path denotes the futures table (the field itself or a property forwarding to it)."""
+    return _last_attr(path) in _TAB["names"]
+
+
+def discover_futures_table(ctx):
+    """The futures table is the mapping register_future stores the new future's list in - wherever the
+    bookkeeping lives (RegionObjectsState itself or a collaborator object it delegates to)."""
+    repo = ctx.repo
+    reg = Fn(ctx, f"{RS}.register_future")
+    typed = {a.arg for a in reg.tree.args.args if a.annotation is not None and "ObjectUpdateType" in ast.unparse(a.annotation)}
+    fields = set()
+    for s_ in stores(reg.tree, into_defs=False):
+        k = s_.target.slice if s_.kind == "setitem" else s_.node.args[0] if (
+            s_.kind == "mutcall" and s_.method == "setdefault" and s_.node.args) else None
+        if k is None or "." not in s_.path:
+            continue
+        k = origin(reg.tree, k)
+        if isinstance(k, ast.Tuple) and any(isinstance(e, ast.Name) and e.id in typed for e in k.elts):
+            fields.add(s_.path.split(".")[-1])
+            parts = s_.path.split(".")
+            _TAB["via"] = parts[1] if len(parts) == 3 and parts[0] == reg.params[0] else None
+    ctx.require(len(fields) == 1, f"register_future no longer stores into one futures table keyed by "
+                                  f"(<local id>, <update type>) (found {sorted(fields)})")
+    field = next(iter(fields))
+    names = {field}
+    for lst in repo.classes.values():        # forwarding properties: `return self.<...>.<field>`
+        for ci in lst:
+            if ci.module.rel not in ANCHOR_FILES:
+                continue
+            for m in ci.methods.values():
+                if any((ap(d) or "") == "property" for d in m.node.decorator_list):
+                    rets = [r for r in walk(m.node) if isinstance(r, ast.Return) and r.value is not None]
+                    if len(rets) == 1 and _last_attr(ap(rets[0].value)) == field and (ap(rets[0].value) or "").startswith("self."):
+                        names.add(m.name)
+    _TAB["names"], _TAB["field"] = names, field
+    rs = repo.cls(RS, OM)
+    holder = collaborator_class(repo, rs, _TAB["via"]) if _TAB.get("via") else rs
+    _TAB["holder"] = holder.qual if holder is not None else rs.qual
+    return field
+
+
 # --------------------------------------------------------------------------- per-run index (speed only)
 
 _IDX: Dict[tuple, list] = {}
@@ -153,13 +208,11 @@ _IDX: Dict[tuple, list] = {}
 
 def _mod_index(repo, mod):
     """[(top-level FuncInfo, stores, calls)] of one module, computed once per run."""
-    k = (id(repo), mod.rel)
-    if k not in _IDX:
-        if _IDX and next(iter(_IDX))[0] != id(repo):
-            _IDX.clear()
-        _IDX[k] = [(f, stores(f.node, into_defs=True), calls(f.node, into_defs=True))
-                   for f in repo.all_funcs if f.parent_fn is None and f.module is mod]
-    return _IDX[k]
+    idx = repo.__dict__.setdefault("_c14_mod_index", {})    # per Repo object (id() values are reused after gc)
+    if mod.rel not in idx:
+        idx[mod.rel] = [(f, stores(f.node, into_defs=True), calls(f.node, into_defs=True))
+                        for f in repo.all_funcs if f.parent_fn is None and f.module is mod]
+    return idx[mod.rel]
 
 
 def _fn_text_mentions(f: FuncInfo, word: str) -> bool:
@@ -192,6 +245,22 @@ def fast_callers_of(repo, name: str):
     return out
 
 
+def tab_writers(repo):
+    """Stores to the futures table.  A private field name is matched by name everywhere; a public (possibly
+    generic) name only inside the classes that hold the table or through the attribute that holds the collaborator."""
+    field = _TAB["field"]
+    out = []
+    holders = {_TAB.get("holder")}
+    via = {_TAB["via"]} if _TAB.get("via") else set()
+    for nm in sorted(_TAB["names"]):
+        for f, st in fast_writers_of(repo, nm):
+            if nm.startswith("_"):
+                out.append((f, st))
+            elif (f.cls is not None and f.cls.qual in holders) or any(f".{a}.{nm}" in st.path for a in via):
+                out.append((f, st))
+    return out
+
+
 # --------------------------------------------------------------------------- R1
 
 def _alias_stores(repo, f: FuncInfo, field: str):
@@ -216,19 +285,48 @@ def r1(ctx):
     for q in sorted({q for qs in OWNERS.values() for q in qs}):
         repo.fn(q)  # vanished owner anchor -> AnalysisError
 
+    owner_classes = [repo.cls(RS, OM), repo.cls(WM, OM)]
+
+    def collab_sites(f: FuncInfo):
+        """Functions of the owner classes that delegate to method f of a collaborator object they construct."""
+        out = []
+        if f.cls is None:
+            return out
+        for ci in owner_classes:
+            init = repo.lookup_method(ci, "__init__")
+            attrs = {st.path.split(".")[1] for st in stores(init.node, into_defs=False)
+                     if st.kind == "assign" and st.path.startswith("self.") and st.path.count(".") == 1} if init else set()
+            for attr in attrs:
+                cc = collaborator_class(repo, ci, attr)
+                if cc is None or not any(k == f.cls for k in repo.mro(cc)):
+                    continue
+                if f.name == "__init__":
+                    out.append(init)
+                    continue
+                for c_ in repo.mro(ci):
+                    for m in c_.methods.values():
+                        if any(ap(c.func) == f"self.{attr}.{f.name}" for c in calls(m.node, into_defs=True)):
+                            out.append(m)
+        return out
+
     def allowed(f: FuncInfo, owners, depth=3) -> bool:
         if f.qual in owners:
             return True
         if depth == 0:
             return False
+        cs = collab_sites(f)
+        if cs:
+            return all(allowed(g, owners, depth - 1) for g in cs)
         cs = [g for g, _ in fast_callers_of(repo, f.name) if g != f]
         return bool(cs) and all(allowed(g, owners, depth - 1) for g in cs)
 
     tops = [f for f in repo.all_funcs if f.parent_fn is None]
-    for table, armed in ((OWNERS, True), (NOTE_OWNERS, False)):
+    owners_tab = dict(OWNERS)
+    owners_tab[_TAB["field"]] = owners_tab.pop("_object_futures")   # the futures table under its current name
+    for table, armed in ((owners_tab, True), (NOTE_OWNERS, False)):
         for field, owners in table.items():
             found: Dict[str, Tuple[FuncInfo, list]] = {}
-            for f, st in fast_writers_of(repo, field):
+            for f, st in (tab_writers(repo) if field == _TAB["field"] else fast_writers_of(repo, field)):
                 found.setdefault(f.full, (f, []))[1].append(st)
             for f in tops:
                 if field in f.module.src and _fn_text_mentions(f, field):
@@ -346,6 +444,20 @@ def r2(ctx):
                bool(fs) and wit is None, n.w(c), "object tracked by local id but not by full id: the two lookups disagree",
                n.describe(wit))
 
+        # the two index updates are adjacent: nothing that can fail (or look the object up) runs in between
+        tn = set(n.nodes(c))
+        sn = set(fs)
+        for first, second, what in ((tn, sn, "track_object"), (sn, tn, "the full-id store")):
+            if first and second and normal_path(n.cfg, list(first), lambda x: x in second) is not None:
+                between = n.cfg.reachable(list(first), avoid=lambda x: x in second, exc=False)
+                bad = sorted((x for x in between if x not in first and cfg_node_fallible(n.cfg, x)),
+                             key=lambda x: getattr(x.ast, "lineno", 0))
+                ctx.ob("C14.R2", f"{WM}._track_new_object: local-id and full-id index are updated back to back", not bad,
+                       n.w(c), ("after " + what + ", " + norm(cfg_node_expr(n.cfg, bad[0]))[:100] + " runs before the other "
+                                "index is updated: if it raises (or looks the object up) the object is in one index only")
+                       if bad else "")
+                break
+
     # kill path: untrack_object(obj) goes with _fullid_lookup removal of obj.FullID
     k = Fn(ctx, f"{WM}._kill_object_by_local_id")
     us = [c for c in find_calls(k.tree, "untrack_object", into_defs=False) if c.args and isinstance(c.args[0], ast.Name)]
@@ -366,8 +478,8 @@ def r2_strong_indices(ctx):
     """The index tables own the tracked objects: they are never bound to a weakref container."""
     repo = ctx.repo
     n = 0
-    for field in ("_fullid_lookup", "localid_lookup", "_orphans", "_object_futures"):
-        for f, st in fast_writers_of(repo, field):
+    for field in ("_fullid_lookup", "localid_lookup", "_orphans", _TAB["field"]):
+        for f, st in (tab_writers(repo) if field == _TAB["field"] else fast_writers_of(repo, field)):
             if st.kind != "assign" or st.value is None or st.path.split(".")[-1] != field:
                 continue
             n += 1
@@ -537,7 +649,7 @@ def _futures_key_layout(ctx, reg: Fn):
     and the index of the update-type component."""
     sites = []
     for s in stores(reg.tree, into_defs=False):
-        if not s.path.endswith("._object_futures"):
+        if not is_tab(s.path):
             continue
         if s.kind == "setitem":
             sites.append({"node": s.node, "key": s.target.slice, "value": s.value, "call": None})
@@ -580,7 +692,7 @@ def _cancel_all_loops(fn: Fn):
     """Outer loops over _object_futures in which .cancel() is called on every future unconditionally."""
     out = []
     for lp in [n for n in walk(fn.tree) if isinstance(n, (ast.For, ast.AsyncFor))]:
-        if not any(p.endswith("._object_futures") or p == "_object_futures" for p in paths_in(lp.iter)):
+        if not any(is_tab(p) for p in paths_in(lp.iter)):
             continue
         if any(isinstance(x, (ast.Break, ast.Return)) for x in walk(lp)):
             continue
@@ -666,8 +778,7 @@ def r4(ctx):
         for lp in [n for n in walk(f.node, into_defs=True) if isinstance(n, (ast.For, ast.AsyncFor))]:
             base, _ = strip_copy(lp.iter)
             p = ap(base) or ""
-            if not (p.endswith("._object_futures") or p.endswith("._object_futures.items()")
-                    or p.endswith("._object_futures.keys()")):
+            if not is_tab(p) or p.endswith(".values()"):
                 continue
             keyvar, comps = _key_parts(lp, p.endswith(".items()"))
             if keyvar is None and comps is None:
@@ -690,8 +801,7 @@ def r4(ctx):
     cmp_ok, cancel_ok = False, False
     for lp in [n for n in walk(can.tree) if isinstance(n, ast.For)]:
         pth = ap(strip_copy(lp.iter)[0]) or ""
-        if not (pth.endswith("._object_futures") or pth.endswith("._object_futures.items()")
-                or pth.endswith("._object_futures.keys()")):
+        if not is_tab(pth) or pth.endswith(".values()"):
             continue
         keyvar, comps = _key_parts(lp, pth.endswith(".items()"))
         for c in find_calls(lp, "cancel", into_defs=False):
@@ -717,9 +827,9 @@ def r4(ctx):
             srcx = strip_copy(origin(can.tree, lp.iter))[0]
             k = None
             if isinstance(srcx, ast.Call) and call_attr(srcx) == "get" and isinstance(srcx.func, ast.Attribute) \
-                    and (ap(srcx.func.value) or "").endswith("._object_futures") and srcx.args:
+                    and is_tab(ap(srcx.func.value)) and srcx.args:
                 k = origin(can.tree, srcx.args[0])
-            elif isinstance(srcx, ast.Subscript) and (ap(srcx.value) or "").endswith("._object_futures"):
+            elif isinstance(srcx, ast.Subscript) and is_tab(ap(srcx.value)):
                 k = origin(can.tree, srcx.slice)
             if not (isinstance(k, ast.Tuple) and len(k.elts) == arity and all(ap(k.elts[j]) == cpar for j in idpos)):
                 continue
@@ -730,7 +840,7 @@ def r4(ctx):
                 cmp_ok = True
                 extra = [e for e, pol in facts(c, can.tree)
                          if not (isinstance(e, ast.Compare) and len(e.ops) == 1 and isinstance(e.ops[0], (ast.In, ast.NotIn))
-                                 and any(pp.endswith("._object_futures") for pp in paths_in(e)))]
+                                 and any(is_tab(pp) for pp in paths_in(e)))]
                 cancel_ok = cancel_ok or not extra
             else:
                 direct_msg = (f"direct lookup of {norm(k)} fixes the update-type component to {norm(t)}: requests "
@@ -744,10 +854,10 @@ def r4(ctx):
     # (e) key agreement in resolve_futures
     rk = None
     for c in calls(res.tree):
-        if call_attr(c) in ("get", "pop", "setdefault") and (ap(c.func.value) if isinstance(c.func, ast.Attribute) else "" or "").endswith("._object_futures") and c.args:
+        if call_attr(c) in ("get", "pop", "setdefault") and isinstance(c.func, ast.Attribute) and is_tab(ap(c.func.value)) and c.args:
             rk = origin(res.tree, c.args[0])
     for n in walk(res.tree):
-        if isinstance(n, ast.Subscript) and (ap(n.value) or "").endswith("._object_futures") and rk is None:
+        if isinstance(n, ast.Subscript) and is_tab(ap(n.value)) and rk is None:
             rk = origin(res.tree, n.slice)
     rtyped = {a.arg for a in res.tree.args.args if a.annotation is not None and "ObjectUpdateType" in ast.unparse(a.annotation)}
     okk = isinstance(rk, ast.Tuple) and len(rk.elts) == arity and isinstance(rk.elts[tpos], ast.Name) \
@@ -762,7 +872,7 @@ def r4(ctx):
         if site["call"] is None:
             v = origin(reg.tree, site["value"])
             keeps = isinstance(v, ast.Call) and call_attr(v) in ("get", "setdefault") and isinstance(v.func, ast.Attribute) \
-                and (ap(v.func.value) or "").endswith("._object_futures") and v.args \
+                and is_tab(ap(v.func.value)) and v.args \
                 and norm(origin(reg.tree, v.args[0])) == norm(key)
             lst = ap(site["value"])
             shown = norm(site["value"])
@@ -786,7 +896,7 @@ def r4(ctx):
 
     # (g) entries leave _object_futures only when their futures are provably finished
     nrem = 0
-    for f, st in fast_writers_of(repo, "_object_futures"):
+    for f, st in tab_writers(repo):
         if f.name == "__init__":
             continue
         removal = st.kind in ("delitem", "del") or (st.kind == "mutcall" and st.method in ("pop", "popitem", "clear")) \
@@ -836,7 +946,7 @@ def _removal_justified(fn: Fn, s) -> Tuple[bool, str]:
         if isinstance(e, ast.Compare) and len(e.ops) == 1 and isinstance(e.ops[0], ast.Is) and pol:
             for a, b in ((e.left, e.comparators[0]), (e.comparators[0], e.left)):
                 pa = ap(a) or ""
-                if (pa.endswith("._object_futures[]") or pa.endswith("._object_futures.get()")) and isinstance(b, ast.Name):
+                if (pa.endswith("[]") or pa.endswith(".get()")) and is_tab(pa[:-2] if pa.endswith("[]") else pa[:-6]) and isinstance(b, ast.Name):
                     ident = b.id
     if ident and any(isinstance(e, ast.Name) and e.id == ident and not pol for e, pol in fs):
         return True, ""
@@ -1122,6 +1232,7 @@ def r7(ctx):
 
 
 def run(ctx):
+    discover_futures_table(ctx)
     r1(ctx)
     r2(ctx)
     r2_kill_blocks(ctx)
